@@ -232,7 +232,7 @@ def make_source(r):
     if c < 0.6:
         return workloads.faulted(r, docmodel.render(r, size="small", ascii_only=True))[0]
     if c < 0.8:
-        return noisy.text_of(noisy.gen(r, 12))
+        return noisy.text_of(noisy.gen_any(r, 12))
     if c < 0.9:
         return ""
     return "Feature: f\n  @t\n  Scenario Outline: o <a>\n    Given <a>\n    @e\n    Examples:\n      | a |\n      | 1 |\n      | 2 |\n"
